@@ -854,6 +854,14 @@ func parseTypeSystemDefinition(parser *Parser) (ast.Node, error) {
 		if keywordToken, err = lookahead(parser); err != nil {
 			return nil, err
 		}
+		// only definitions that take a description may follow one
+		if keywordToken.Kind == lexer.NAME {
+			switch keywordToken.Value {
+			case lexer.SCALAR, lexer.TYPE, lexer.INTERFACE, lexer.UNION, lexer.ENUM, lexer.INPUT, lexer.DIRECTIVE:
+			default:
+				return nil, unexpected(parser, keywordToken)
+			}
+		}
 	}
 
 	if keywordToken.Kind != lexer.NAME {
